@@ -65,11 +65,19 @@ Section Multi.
   Fixpoint filed (i : nat) (l : list (nat * result)) : option result :=
     match l with [] => None | (j, r) :: t => if Nat.eqb i j then Some r else filed i t end.
   Definition assembled (n : nat) (l : list (nat * result)) : list (option result) := map (fun i => filed i l) (seq 0 n).
+  (* in-place updating (MultiSim.run): when the finished list has the length of the caller's list, the caller's object at position i takes
+     over the whole state of finished member i (old.__dict__.update(new.__dict__)); otherwise the caller's objects are left alone *)
+  Variable obj : Type.
+  Variable take_over : obj -> result -> obj.
+  Definition update_in_place (objs : list obj) (rs : list result) : list obj :=
+    if Nat.eqb (List.length rs) (List.length objs) then map (fun p => take_over (fst p) (snd p)) (combine objs rs) else objs.
 End Multi.
 
 (* ---- reduced statistics of the members *)
 Definition qsum (l : list Q) : Q := fold_right Qplus 0 l.
 Definition qmean_of (l : list Q) : Q := qsum l / inject_Z (Z.of_nat (List.length l)).
+(* np.std squared: the mean squared deviation from the mean *)
+Definition qvar_of (l : list Q) : Q := qmean_of (map (fun x => (x - qmean_of l) * (x - qmean_of l)) l).
 Fixpoint zinsert (x : Z) (l : list Z) : list Z := match l with [] => [x] | h :: t => if Z.leb x h then x :: l else h :: zinsert x t end.
 Definition zsort (l : list Z) : list Z := fold_right zinsert [] l.
 (* np.quantile (linear interpolation) on integer-valued members: position q * (n - 1) on the sorted values *)
